@@ -484,12 +484,13 @@ Proof.
   - intros u'. apply (m_usigs_nd s H u').
 Qed.
 
-Lemma invm_clear_group_loop : forall xs s u g,
+(* the loop keeps the membership invariant and never reaches its panic branch *)
+Lemma clear_group_loop_ok : forall xs s u g,
   InvM s -> 0 <= g -> (Z.to_nat g < length (ugroups s u))%nat ->
   NoDup xs -> (forall y, In y xs -> In y (gget s u (Z.to_nat g))) ->
-  InvM (fst (clear_group_loop s u g xs)).
+  InvM (fst (clear_group_loop s u g xs)) /\ snd (clear_group_loop s u g xs) = false.
 Proof.
-  induction xs as [|x r IH]; intros s u g H Hg Hlt Hnd Hin; cbn [clear_group_loop]; [exact H|].
+  induction xs as [|x r IH]; intros s u g H Hg Hlt Hnd Hin; cbn [clear_group_loop]; [split; [exact H|reflexivity]|].
   inversion Hnd as [|? ? Hnx Hnd']; subst.
   assert (Hxin : In x (gget s u (Z.to_nat g))) by (apply Hin; left; reflexivity).
   destruct (ufixed s u x) eqn:Efx.
@@ -541,6 +542,12 @@ Proof.
       * unfold s2. cbn. rewrite upd_same. rewrite set_nth_length. exact Hlt.
       * intros y Hy. assert (E : gget s2 u (Z.to_nat g) = gget s1 u n) by reflexivity. rewrite E. apply (Hrest s1 Hg1 y Hy).
 Qed.
+
+Lemma invm_clear_group_loop : forall xs s u g,
+  InvM s -> 0 <= g -> (Z.to_nat g < length (ugroups s u))%nat ->
+  NoDup xs -> (forall y, In y xs -> In y (gget s u (Z.to_nat g))) ->
+  InvM (fst (clear_group_loop s u g xs)).
+Proof. intros xs s u g H Hg Hlt Hnd Hin. apply (proj1 (clear_group_loop_ok xs s u g H Hg Hlt Hnd Hin)). Qed.
 
 Lemma invm_mux_clear_group : forall s u g, InvA s -> InvM s -> vmux s u = true -> InvM (fst (step_mux_clear_group s u g)).
 Proof.
